@@ -35,6 +35,7 @@ import (
 var rec = vk.NewRecorder("C13")
 
 func TestMain(m *testing.M) {
+	logger.SetOutput(io.Discard) // the lines are still built and handed to the writer; they just do not fill the shard logs
 	logger.SetOutput(io.Discard)
 	code := m.Run()
 	rec.Flush("all")
@@ -123,6 +124,22 @@ func exec(op Op) string {
 			list = append(list, list[int(op.U>>1)%len(list)], list[int(op.U>>5)%len(list)])
 		}
 		parts, act, err := sms.NewBatchDataCodingEncoder().Protocol(pr).Content(text, byte(op.U)).DataCodings(list).Build(ctx)
+		return digest(append(parts, []byte(fmt.Sprint(act, err)))...)
+	case "batchlog":
+		// requests on which the builder LOGS: no listed coding can represent the content (it falls back to
+		// UCS-2 and says so), or nothing fits at all (it reports an error and says so). The library's logger is
+		// shared by all goroutines.
+		text := string(vk.UnHex(op.Text)) + "中文"
+		if op.U&1 == 1 {
+			text = strings.Repeat(text, 1+17200/len([]rune(text))) // UCS-2 needs more than 255 parts as well
+		}
+		pr := sms.CMPP
+		list := []dc.ProtocolDataCoding{dc.CMPP_CODING_ASCII}
+		if op.Proto == "smpp" {
+			pr = sms.SMPP
+			list = []dc.ProtocolDataCoding{dc.SMPP_CODING_ASCII, dc.SMPP_CODING_Latin1, dc.SMPP_CODING_GSM7_UNPACKED}
+		}
+		parts, act, err := sms.NewBatchDataCodingEncoder().Protocol(pr).Content(text, byte(op.U>>8)).DataCodings(list).Build(ctx)
 		return digest(append(parts, []byte(fmt.Sprint(act, err)))...)
 	case "content":
 		text := string(vk.UnHex(op.Text))
@@ -268,7 +285,7 @@ var overflowText = strings.Repeat("a", 17200)
 var hugeText = strings.Repeat("0123456789abcdef中", 2100)
 
 var opGen = rapid.Custom(func(t *rapid.T) Op {
-	k := rapid.SampledFrom([]string{"encode", "encode", "encodebad", "decode", "decode", "string", "string", "split", "batch", "content", "gsm7", "msgid", "names", "names", "ucs2", "period"}).Draw(t, "k")
+	k := rapid.SampledFrom([]string{"encode", "encode", "encodebad", "decode", "decode", "string", "string", "split", "batch", "batchlog", "content", "gsm7", "msgid", "names", "names", "ucs2", "period"}).Draw(t, "k")
 	op := Op{K: k, U: rapid.Uint64().Draw(t, "u"), Yield: rapid.IntRange(0, 3).Draw(t, "yield") == 0}
 	switch k {
 	case "encodebad":
@@ -416,7 +433,7 @@ func init() {
 
 func TestHotLoops(t *testing.T) {
 	rapid.Check(t, func(t *rapid.T) {
-		kind := rapid.SampledFrom([]string{"msgid", "msgid", "names", "period", "ucs2", "gsm7", "content", "split", "string", "encode"}).Draw(t, "kind")
+		kind := rapid.SampledFrom([]string{"msgid", "msgid", "names", "period", "ucs2", "gsm7", "content", "split", "string", "encode", "batchlog"}).Draw(t, "kind")
 		c := HotCase{Procs: rapid.SampledFrom([]int{2, 4, 8, 16}).Draw(t, "gomaxprocs"), G: rapid.SampledFrom([]int{2, 3, 4, 8}).Draw(t, "goroutines")}
 		n := rapid.IntRange(2, 3).Draw(t, "nops")
 		for len(c.Ops) < n {
@@ -441,7 +458,7 @@ func TestHotLoops(t *testing.T) {
 			op.Yield = false
 			c.Ops = append(c.Ops, op)
 		}
-		c.Iters = map[string]int{"msgid": 8000, "names": 1500, "period": 3000}[kind]
+		c.Iters = map[string]int{"msgid": 8000, "names": 1500, "period": 3000, "batchlog": 120}[kind]
 		if c.Iters == 0 {
 			c.Iters = 600
 		}
